@@ -5,6 +5,7 @@ package probe
 import (
 	"reflect"
 	"regexp"
+	"runtime"
 	"testing"
 
 	"github.com/coregx/coregex"
@@ -49,5 +50,34 @@ func TestProbeEmptyClassWithCaptureCompiles(t *testing.T) {
 				t.Errorf("%s on \"a\": %v, regexp %v", p, g, w)
 			}
 		}()
+	}
+}
+
+// R-NESTEDSTATE: Count / FindAll hold the per-search state and resumed Teddy / Aho-Corasick searches at the end of
+// the haystack (or in longest mode) took a second one from the pool, rebuilt after every GC (fix: the *AtWithState
+// variants). Mallocs of a Count call that follows a GC, steady state.
+func TestProbeNestedStateAfterGC(t *testing.T) {
+	for _, pat := range []string{`foo|bar|baz`, `alpha|beta|gamma|delta|epsilon|zeta|eta|theta|iota|kappa`} {
+		re := coregex.MustCompile(pat)
+		h := []byte("xx foo bar zeta")
+		for i := 0; i < 3; i++ {
+			re.FindAllIndex(h, -1)
+		}
+		var ms runtime.MemStats
+		total := uint64(0)
+		for i := 0; i < 10; i++ {
+			runtime.GC()
+			runtime.ReadMemStats(&ms)
+			before := ms.Mallocs
+			n := re.Count(h, -1)
+			runtime.ReadMemStats(&ms)
+			total += ms.Mallocs - before
+			_ = n
+		}
+		t.Logf("%s: %d mallocs in 10 Count calls each following a GC", pat, total)
+		// Count is documented as zero-allocation; a rebuilt SearchState costs dozens of allocations
+		if total > 5 {
+			t.Errorf("%s: %d mallocs in 10 Count calls each following a GC (a SearchState is rebuilt per call)", pat, total)
+		}
 	}
 }
